@@ -16,7 +16,7 @@ if ! patch -p1 --no-backup-if-mismatch < /verif/seeded/$s/patch.diff >/dev/null 
   echo "PATCH DOES NOT APPLY"; [ -n "$TRY_SEED_IN_PLACE" ] && git -C /repo checkout -- .; exit 9
 fi
 cd /verif
-VERIF_REPO=$d VERIF_EVIDENCE_SUFFIX=.seed VERIF_NO_REPLAY=${VERIF_NO_REPLAY-1} ./check $p quick "$@" > /tmp/try_$s.log 2>&1
+VERIF_REPO=$d VERIF_EVIDENCE_SUFFIX=.seed VERIF_NO_REPLAY=${VERIF_NO_REPLAY-1} ./check $p ${TRY_SEED_TIER:-quick} "$@" > /tmp/try_$s.log 2>&1
 rc=$?
 [ -n "$TRY_SEED_IN_PLACE" ] && git -C /repo checkout -- . || rm -rf "$d"
 grep -E "VIOLATION|UNDECIDED|^\[" /tmp/try_$s.log | cut -c1-300
